@@ -1,4 +1,4 @@
-import Infretis.Lemmas.GeomSys
+import Infretis.Lemmas.GeomFlow
 /-!
 # C20 — order parameters respect the symmetries of what they measure
 
@@ -372,5 +372,393 @@ theorem calculate_pure (var : Variant) (op : OP) (s : Sys) : (calculate var op s
 example : inplace exSys (.posRow 0) (V3.smul 0) = exSys ∧
     inplace exSys (.posRow 1) (V3.smul 0) ≠ exSys := by
   constructor <;> decide +kernel
+
+/-! ## Extension pass
+
+Which variant is the code: `Variant.current = .repaired` (fix 8870063: `Distancevel` slices `box[:3]`).
+The `.asIs` statements above (`box3_box9_agree_counterexample`, `distancevel_box9_always_indexerror`,
+`box3_box9_agree_partial`) describe the code BEFORE that fix and are kept as the record of the defect;
+the statement about today's code is `box3_boxN_agree` (no guard, all six classes).  The tie checks on
+every run that the real `Distancevel` sides with `Variant.current` wherever the variants differ. -/
+
+/-! ### 3-, 9- and n-component boxes: today's code -/
+
+/-- **Box forms, code of today**: every order parameter gives the same result (value, NaN or error)
+    for `[x,y,z]` and for `[x,y,z] ++ rest` with ANY tail — the GROMACS 9-form with zero or
+    non-zero off-diagonal entries included: only the diagonal of the box matrix is used. -/
+theorem box3_boxN_agree (op : OP) (s : Sys) (x y z : ℚ) (rest : List ℚ) :
+    value Variant.current op { s with box := some (x :: y :: z :: rest) }
+      = value Variant.current op { s with box := some [x, y, z] } :=
+  box3_boxN_agree_repaired op s x y z rest
+
+example : value Variant.current (.distancevel 0 1 true) { exSys with box := some [4, 8, 4, 0, 0, 2, 0, 0, 0] }
+    = .ok [3 / 2, 21 / 16] := by decide +kernel
+
+/-- a triclinic cell in the 9-component form `xx yy zz xy xz yx yz zx zy`: `b = (2, 4, 0)` -/
+def triBox : List ℚ := [4, 4, 4, 0, 0, 2, 0, 0, 0]
+/-- two coincident atoms in that cell -/
+def triSys : Sys := { pos := [⟨0, 0, 0⟩, ⟨0, 0, 0⟩], vel := [⟨0, 0, 0⟩, ⟨0, 0, 0⟩], box := some triBox }
+def triCell : Mat3 := ⟨⟨4, 0, 0⟩, ⟨2, 4, 0⟩, ⟨0, 0, 4⟩⟩
+
+/-- **Genuinely triclinic cells are NOT covered** (the property quantifies over orthogonal boxes; the
+    code's docstring says "assumes an orthogonal box"): the per-axis wrap uses the diagonal only, so
+    moving an atom by the cell vector `b = (2,4,0)` changes the periodic distance (0 ↦ 2, squared 4),
+    and the wrapped vector `(2,0,0)` is not the shortest image (`d − b = 0` is). -/
+theorem triclinic_lattice_shift_counterexample :
+    boxMatrix triBox = some triCell ∧
+    value Variant.current (.distance 0 1 true) triSys = .ok [0] ∧
+    value Variant.current (.distance 0 1 true)
+      (shiftLattice triCell (fun a => if a = 1 then (0, 1, 0) else (0, 0, 0)) triSys) = .ok [4] := by
+  refine ⟨?_, ?_, ?_⟩ <;> decide +kernel
+
+/-- **Orthogonal cells in the 9-component form are covered**: with all six off-diagonal entries zero the
+    cell vectors are the image vectors, and shifting any atoms by cell vectors leaves every periodic
+    order parameter unchanged (away from half-box ties, as in `image_shift_invariant`). -/
+theorem lattice_shift_invariant_orthogonal9 (var : Variant) (op : OP) (hper : op.periodic = true) (s : Sys)
+    (x y z : ℚ) (ks : Nat → Int × Int × Int) (hbox : s.box = some [x, y, z, 0, 0, 0, 0, 0, 0])
+    (htf : TieFreeSys op s ⟨x, y, z⟩) :
+    ∃ M, boxMatrix [x, y, z, 0, 0, 0, 0, 0, 0] = some M ∧ value var op (shiftLattice M ks s) = value var op s := by
+  refine ⟨⟨⟨x, 0, 0⟩, ⟨0, y, 0⟩, ⟨0, 0, z⟩⟩, rfl, ?_⟩
+  rw [shiftLattice_orthogonal]
+  exact image_shift_invariant var op hper s ⟨x, y, z⟩ _ ks hbox htf
+
+example : (OP.puckering 0 1 2 3 4 5 true).periodic = true ∧
+    value .asIs (.puckering 0 1 2 3 4 5 true)
+      (shiftLattice ⟨⟨4, 0, 0⟩, ⟨0, 8, 0⟩, ⟨0, 0, 4⟩⟩ (fun a => if a = 3 then (2, -1, 1) else (0, 0, 0))
+        { exSys with box := some [4, 8, 4, 0, 0, 0, 0, 0, 0] })
+      = value .asIs (.puckering 0 1 2 3 4 5 true) { exSys with box := some [4, 8, 4, 0, 0, 0, 0, 0, 0] } := by
+  constructor <;> decide +kernel
+
+/-! ### minimum image: an image, and the shortest one -/
+
+/-- the wrapped component is the input minus an integer number of box lengths -/
+theorem min_image_is_image (d L : ℚ) (hL : L ≠ 0) : ∃ n : ℤ, pbcWrap d L = d - (n : ℚ) * L :=
+  ⟨rint (d / L), pbcWrap_image d L hL⟩
+
+/-- **the wrapped component is the shortest of all images** (this is what "minimum image" means) -/
+theorem min_image_minimal (d L : ℚ) (hL : 0 < L) (k : ℤ) : |pbcWrap d L| ≤ |d + (k : ℚ) * L| :=
+  abs_pbcWrap_le_image d L hL k
+
+example : pbcWrap 7 4 = 7 - ((2 : ℤ) : ℚ) * 4 ∧ |pbcWrap 7 4| ≤ |(7 : ℚ) + ((-1 : ℤ) : ℚ) * 4| := by
+  constructor <;> decide +kernel
+
+theorem sq_le_of_abs_le_half (w L : ℚ) (h : |w| ≤ L / 2) : w * w ≤ L * L / 4 := by
+  have h1 := abs_le.mp h
+  nlinarith [h1.1, h1.2]
+
+/-- **end-to-end minimum image**: the periodic `Distance` (squared) of ANY two atoms in a box with
+    positive lengths `a, b, c` (3-, 9- or n-component form) is at most `(a² + b² + c²)/4`:
+    per axis the separation never exceeds half a box length. -/
+theorem distance_min_image (var : Variant) (s : Sys) (i0 i1 : Int) (a b c : ℚ) (rest : List ℚ)
+    (hbox : s.box = some (a :: b :: c :: rest)) (ha : 0 < a) (hb : 0 < b) (hc : 0 < c) (l : List ℚ)
+    (h : value var (.distance i0 i1 true) s = .ok l) :
+    ∃ dsq, l = [dsq] ∧ dsq ≤ (a * a + b * b + c * c) / 4 := by
+  simp only [value] at h
+  obtain ⟨dsq, hd, rfl⟩ := map_eq_ok _ _ _ h
+  refine ⟨dsq, rfl, ?_⟩
+  unfold distanceSq at hd
+  cases h1 : getAtom s.pos i1 with
+  | error e => simp [h1, bind, Except.bind] at hd
+  | ok p1 =>
+  cases h0 : getAtom s.pos i0 with
+  | error e => simp [h1, h0, bind, Except.bind] at hd
+  | ok p0 =>
+  simp only [h1, h0, hbox, applyBox, if_true, take3, pbcDist, bind, Except.bind] at hd
+  split at hd
+  · simp [throw, throwThe, MonadExceptOf.throw] at hd
+  · simp only [pure, Except.pure, Except.ok.injEq] at hd
+    subst hd
+    simp only [V3.dot]
+    have hx := sq_le_of_abs_le_half _ _ (abs_pbcWrap_le (V3.sub p1 p0).x a ha)
+    have hy := sq_le_of_abs_le_half _ _ (abs_pbcWrap_le (V3.sub p1 p0).y b hb)
+    have hz := sq_le_of_abs_le_half _ _ (abs_pbcWrap_le (V3.sub p1 p0).z c hc)
+    linarith
+
+example : exSys.box = some (4 :: 8 :: 4 :: []) ∧ value .asIs (.distance 0 5 true) exSys = .ok [45 / 4] ∧
+    (45 / 4 : ℚ) ≤ (4 * 4 + 8 * 8 + 4 * 4) / 4 := by
+  refine ⟨?_, ?_, ?_⟩ <;> decide +kernel
+
+/-! ### Galilean shift of the velocities -/
+
+/-- **A uniform velocity shift changes no relative order parameter**: `Distancevel` is the rate of a
+    RELATIVE distance (it uses `vel[i1] − vel[i0]` only); the position-type ones do not read velocities. -/
+theorem velocity_shift_invariant (var : Variant) (op : OP) (h : op.relative = true) (s : Sys) (u : V3) :
+    value var op (shiftVel u s) = value var op s := by
+  cases op with
+  | distance i0 i1 p => rfl
+  | distancevel i0 i1 p => simp only [value, distancevelNum_shiftVel]
+  | position i d => simp [OP.relative] at h
+  | velocity i d => simp [OP.relative] at h
+  | dihedral i0 i1 i2 i3 p => rfl
+  | puckering i0 i1 i2 i3 i4 i5 p => rfl
+
+example : value .asIs (.distancevel 0 1 true) (shiftVel ⟨5, -3, 1 / 2⟩ exSys) = .ok [3 / 2, 21 / 16] := by
+  decide +kernel
+
+/-- the absolute `Velocity` parameter is (of course) not Galilean invariant — it is not "relative" -/
+example : value .asIs (.velocity 0 0) (shiftVel ⟨5, 0, 0⟩ exSys) = .ok [6] ∧
+    value .asIs (.velocity 0 0) exSys = .ok [1] := by constructor <;> decide +kernel
+
+/-! ### when `calculate` raises, when it returns, how much it returns -/
+
+/-- **`calculate` raises IndexError exactly when an index is illegal for THIS system** (code of today) -/
+theorem calculate_raises_iff (op : OP) (s : Sys) :
+    value Variant.current op s = .error .index ↔ op.indicesValid s = false := by
+  constructor
+  · intro h
+    cases hv : op.indicesValid s with
+    | false => rfl
+    | true => exact absurd h (value_valid_ne_index op s hv)
+  · exact value_invalid _ op s
+
+/-- **Totality and length stability**: legal indices and (for periodic variants) no zero box length ⇒
+    `calculate` returns, and the pre-image has the fixed length of its class (1, 2, 1, 1, 3, 7).  In
+    particular degenerate geometries — coincident atoms, collinear dihedrals, flat or collapsed rings —
+    raise nothing: the code returns numbers (possibly NaN from 0/0 in the tails outside the model). -/
+theorem calculate_returns (op : OP) (s : Sys) (hv : op.indicesValid s = true)
+    (hb : op.periodic = true → BoxNonzero s.box) :
+    ∃ l, value Variant.current op s = .ok l ∧ l.length = op.preLen := by
+  obtain ⟨l, hl⟩ := value_valid_ok op s hv hb
+  exact ⟨l, hl, value_length _ op s l hl⟩
+
+/-- length stability alone, any variant, any system -/
+theorem value_length_stable (var : Variant) (op : OP) (s : Sys) (l : List ℚ) (h : value var op s = .ok l) :
+    l.length = op.preLen := value_length var op s l h
+
+/-- all six atoms the same: every difference is zero, the ring is collapsed -/
+def collapsedSys : Sys := { pos := [⟨1, 2, 3⟩], vel := [⟨0, 0, 0⟩], box := some [4, 4, 4] }
+
+example : (OP.puckering 0 0 0 0 0 0 true).indicesValid collapsedSys = true ∧
+    value Variant.current (.puckering 0 0 0 0 0 0 true) collapsedSys = .ok [0, 0, 0, 0, 0, 0, 0] ∧
+    value Variant.current (.dihedral 0 0 0 0 true) collapsedSys = .ok [0, 0, 0] ∧
+    (OP.puckering 0 0 0 0 0 1 true).indicesValid collapsedSys = false ∧
+    value Variant.current (.puckering 0 0 0 0 0 1 true) collapsedSys = .error .index := by
+  refine ⟨?_, ?_, ?_, ?_, ?_⟩ <;> decide +kernel
+
+/-- **Collinear dihedrals**: if the first (or third) bond vector is parallel to the middle one, both
+    arguments of `arctan2` are zero (the code then returns `arctan2(±0, ±0)`, a number, no exception) -/
+theorem dihedral_collinear_pre (a : ℚ) (v2 v3 : V3) :
+    dihedralOf (V3.smul a v2) v2 v3 = ⟨0, 0, V3.dot v2 v2⟩ ∧
+    dihedralOf v3 v2 (V3.smul a v2) = ⟨0, 0, V3.dot v2 v2⟩ := by
+  constructor <;>
+  · simp only [dihedralOf, V3.triple, V3.dot, V3.cross, V3.smul, DihedralPre.mk.injEq]
+    refine ⟨?_, ?_, trivial⟩ <;> ring
+
+example : dihedralOf (V3.smul 3 ⟨1, 2, 2⟩) ⟨1, 2, 2⟩ ⟨0, 1, 5⟩ = ⟨0, 0, 9⟩ := by decide +kernel
+
+/-! ### the second half of `Puckering.calculate` -/
+
+/-- every symmetry of the puckering pre-image carries over to the Cremer–Pople sums `H1, H2, Q3, Σz²`
+    (the quantities `theta`, `phi`, `Q` are functions of): they are computed from the pre-image alone -/
+theorem puckeringFull_congr (var var' : Variant) (s s' : Sys) (i0 i1 i2 i3 i4 i5 : Int) (p : Bool)
+    (h : value var (.puckering i0 i1 i2 i3 i4 i5 p) s = value var' (.puckering i0 i1 i2 i3 i4 i5 p) s') :
+    puckeringFull var s i0 i1 i2 i3 i4 i5 p = puckeringFull var' s' i0 i1 i2 i3 i4 i5 p := by
+  unfold puckeringFull; rw [h]
+
+/-- translation, rotation (non-periodic) and image-shift (periodic, tie-free) invariance of the sums -/
+theorem puckeringFull_invariant (var : Variant) (s : Sys) (i0 i1 i2 i3 i4 i5 : Int) (p : Bool) :
+    (∀ t, puckeringFull var (translate t s) i0 i1 i2 i3 i4 i5 p = puckeringFull var s i0 i1 i2 i3 i4 i5 p) ∧
+    (∀ R, IsRotation R → p = false →
+      puckeringFull var (rotate R s) i0 i1 i2 i3 i4 i5 p = puckeringFull var s i0 i1 i2 i3 i4 i5 p) ∧
+    (∀ (L : V3) (rest : List ℚ) (ks : Nat → Int × Int × Int), p = true → s.box = some (L.x :: L.y :: L.z :: rest) →
+      TieFreeSys (.puckering i0 i1 i2 i3 i4 i5 p) s L →
+      puckeringFull var (shiftImages L ks s) i0 i1 i2 i3 i4 i5 p = puckeringFull var s i0 i1 i2 i3 i4 i5 p) := by
+  refine ⟨fun t => ?_, fun R hR hp => ?_, fun L rest ks hp hbox htf => ?_⟩
+  · exact puckeringFull_congr _ _ _ _ _ _ _ _ _ _ _ (translation_invariant var _ rfl s t)
+  · subst hp
+    exact puckeringFull_congr _ _ _ _ _ _ _ _ _ _ _ (rotation_invariant var _ rfl rfl R hR s)
+  · subst hp
+    exact puckeringFull_congr _ _ _ _ _ _ _ _ _ _ _ (image_shift_invariant var _ rfl s L rest ks hbox htf)
+
+/-- the sums are defined whenever the pre-image is (seven numbers in, five out) -/
+theorem puckeringFull_length (var : Variant) (s : Sys) (i0 i1 i2 i3 i4 i5 : Int) (p : Bool) (l : List ℚ)
+    (h : puckeringFull var s i0 i1 i2 i3 i4 i5 p = .ok l) : l.length = 5 := by
+  unfold puckeringFull at h
+  obtain ⟨pre, hpre, rfl⟩ := map_eq_ok _ _ _ h
+  have hlen := value_length var _ s pre hpre
+  match pre, hlen with
+  | [z0, z1, z2, z3, z4, z5, nn], _ => rfl
+
+example : puckeringFull .asIs exSys 0 1 2 3 4 5 false =
+    (value .asIs (.puckering 0 1 2 3 4 5 false) exSys).map (fun l =>
+      match puckerSums l with | some r => [r.H1, r.H2, r.Q3, r.ZZ, r.nn] | none => []) ∧
+    (puckeringFull .asIs exSys 0 1 2 3 4 5 false).toOption.isSome = true := by
+  constructor
+  · rfl
+  · decide +kernel
+
+/-! ### construction: what is refused when the object is made, what only at first use -/
+
+/-- **Only the COUNT is checked at construction** (and `dim`, and "no periodic Position"): an object that
+    `create_orderparameter` returns has 2 / 2 / 2 / 4 / 6 indices; rings other than 6-membered are refused. -/
+theorem create_index_count (st : Settings) (o : Obj) (h : createOrderParameter st = .ok (.obj o)) :
+    o.WellCounted := create_wellCounted st o h
+
+/-- number of indices each indexed class insists on -/
+def arityOf (k : String) : Option Nat :=
+  if k = "position" ∨ k = "distance" ∨ k = "distancevel" then some 2
+  else if k = "dihedral" then some 4 else if k = "puckering" then some 6 else none
+
+/-- **A wrong number of indices is refused at construction** (ValueError; TypeError when the value has
+    no `len`) — for Position, Distance, Distancevel, Dihedral, Puckering, whatever the other settings are. -/
+theorem create_rejects_wrong_count (st : Settings) (n : Nat)
+    (hk : arityOf (st.cls.map Char.toLower) = some n) (idx : IdxVal) (hi : st.index = some idx) :
+    (∀ l, idx.items? = some l → l.length ≠ n → createOrderParameter st = .error .valueError) ∧
+    (idx.items? = none → createOrderParameter st = .error .typeError) := by
+  unfold arityOf at hk
+  constructor
+  · intro l hl hne
+    unfold createOrderParameter
+    simp only [hi]
+    split at hk
+    · rename_i h3
+      simp only [Option.some.injEq] at hk; subst hk
+      rcases h3 with h3 | h3 | h3 <;>
+        simp [h3, orderMapKeys, ctorPosition, ctorDistance, ctorDistancevel, verifyPair_wrong_count idx l hl hne,
+          bind, Except.bind, Except.map]
+    · split at hk
+      · rename_i h3
+        simp only [Option.some.injEq] at hk; subst hk
+        simp [h3, orderMapKeys, ctorDihedral, ctorInts_wrong_count 4 idx l hl hne, bind, Except.bind, Except.map]
+      · split at hk
+        · rename_i h3
+          simp only [Option.some.injEq] at hk; subst hk
+          simp [h3, orderMapKeys, ctorPuckering, ctorInts_wrong_count 6 idx l hl hne, bind, Except.bind, Except.map]
+        · cases hk
+  · intro hl
+    unfold createOrderParameter
+    simp only [hi]
+    split at hk
+    · rename_i h3
+      rcases h3 with h3 | h3 | h3 <;>
+        simp [h3, orderMapKeys, ctorPosition, ctorDistance, ctorDistancevel, verifyPair_no_len idx hl,
+          bind, Except.bind, Except.map]
+    · split at hk
+      · rename_i h3
+        simp [h3, orderMapKeys, ctorDihedral, ctorInts_no_len 4 idx hl, bind, Except.bind, Except.map]
+      · split at hk
+        · rename_i h3
+          simp [h3, orderMapKeys, ctorPuckering, ctorInts_no_len 6 idx hl, bind, Except.bind, Except.map]
+        · cases hk
+
+example : arityOf (("PuCkErInG" : String).map Char.toLower) = some 6 ∧
+    (IdxVal.seq [.int 0, .int 1, .int 2, .int 3, .int 4]).items? = some [.int 0, .int 1, .int 2, .int 3, .int 4] ∧
+    createOrderParameter ⟨"PuCkErInG", some (.seq [.int 0, .int 1, .int 2, .int 3, .int 4]), none, none⟩
+      = .error .valueError ∧
+    createOrderParameter ⟨"Dihedral", some (.scalar (.int 7)), none, none⟩ = .error .typeError := by
+  refine ⟨?_, ?_, ?_, ?_⟩ <;> decide +kernel
+
+/-- **The RANGE of the indices is not looked at when the object is made** — it cannot be: the number of
+    atoms is unknown then.  Any two ints (negative, equal, huge) make a `Distance`; whether they are
+    legal is decided by the first `calculate`, which raises IndexError exactly for the systems that are
+    too small (`calculate_raises_iff`).  So "an invalid definition is rejected at construction, never at
+    first use" holds for the count, NOT for the range. -/
+theorem range_checked_at_first_use (st : Settings) (hk : st.cls.map Char.toLower = "distance") (a b : Int)
+    (hi : st.index = some (.seq [.int a, .int b])) :
+    ∃ o, createOrderParameter st = .ok (.obj o) ∧ o.toOP = some (.distance a b (st.periodic.getD true)) ∧
+      ∀ s : Sys, value Variant.current (.distance a b (st.periodic.getD true)) s = .error .index ↔
+        (inRange s.pos.length b && inRange s.pos.length a) = false := by
+  refine ⟨.distance (.seq [.int a, .int b]) (st.periodic.getD true), ?_, rfl, fun s => calculate_raises_iff _ s⟩
+  unfold createOrderParameter
+  simp [hk, hi, orderMapKeys, ctorDistance, verifyPair, IdxVal.items?, bind, Except.bind, pure, Except.pure,
+    Except.map]
+
+example : (("Distance" : String).map Char.toLower) = "distance" ∧
+    createOrderParameter ⟨"Distance", some (.seq [.int (-100), .int (-100)]), none, none⟩
+      = .ok (.obj (.distance (.seq [.int (-100), .int (-100)]) true)) ∧
+    value Variant.current (.distance (-100) (-100) true) exSys = .error .index := by
+  refine ⟨?_, ?_, ?_⟩ <;> decide +kernel
+
+/-- **Dihedral and Puckering objects always carry Python ints** (the constructor converts with `int()`,
+    truncating floats and turning bools into 0/1), so they are always in the domain of `calculate`;
+    and the object's `velocity_dependent` flag is the flag of its class. -/
+theorem created_object_in_domain (st : Settings) (o : Obj) (h : createOrderParameter st = .ok (.obj o)) :
+    (∀ l p, o = .dihedral l p → ∃ op, o.toOP = some op) ∧
+    (∀ l p, o = .puckering l p → ∃ op, o.toOP = some op) ∧
+    (∀ op, o.toOP = some op → o.velocityDependent = op.velocityDependent) := by
+  have hw := create_wellCounted st o h
+  refine ⟨fun l p ho => ?_, fun l p ho => ?_, fun op hop => toOP_velocityDependent o op hop⟩
+  · subst ho; exact dihedral_toOP l p hw
+  · subst ho; exact puckering_toOP l p hw
+
+example : createOrderParameter ⟨"dihedral", some (.seq [.bool true, .float (17 / 10), .float (-5 / 2), .str "-3"]), none, none⟩
+    = .ok (.obj (.dihedral [1, 1, -2, -3] false)) ∧
+    (Obj.dihedral [1, 1, -2, -3] false).toOP = some (.dihedral 1 1 (-2) (-3) false) := by
+  constructor <;> decide +kernel
+
+/-- a `Position` needs an explicit `periodic = false` (the constructor's default is True, which it then
+    refuses); a `Velocity` accepts anything as index -/
+example : createOrderParameter ⟨"position", some (.seq [.int 0, .int 1]), none, none⟩ = .error .notImplemented ∧
+    createOrderParameter ⟨"position", some (.seq [.int 0, .int 1]), some false, none⟩
+      = .ok (.obj (.position (.seq [.int 0, .int 1]))) ∧
+    createOrderParameter ⟨"velocity", some (.scalar .none), none, some "Z"⟩ = .ok (.obj (.velocity (.scalar .none) 2)) ∧
+    createOrderParameter ⟨"velocity", some (.scalar (.int 0)), none, some "w"⟩ = .error .valueError ∧
+    createOrderParameter ⟨"orderparameter", none, none, none⟩ = .ok (.obj .base) ∧
+    createOrderParameter ⟨"mymodule", none, none, none⟩ = .ok .external := by
+  refine ⟨?_, ?_, ?_, ?_, ?_, ?_⟩ <;> decide +kernel
+
+/-! ### `EngineBase.calculate_order` as a whole -/
+
+/-- **Explicit arrays**: nothing is read, the value is that of `calculate` on (xyz, ±vel, box), and the
+    System afterwards holds exactly the arrays handed over (velocities times `(−1)^vel_rev`). -/
+theorem calculateOrderFull_explicit_route (var : Variant) (op : OP) (s : SysF) (x v : List V3) (b : List ℚ)
+    (file : Config) :
+    (calculateOrderFull var (some op) s (some x) (some v) (some b) file).read = false ∧
+    (calculateOrderFull var (some op) s (some x) (some v) (some b) file).val =
+      liftCO (calculateOrder var op s.velRev s.box x v (some b)).1 ∧
+    (calculateOrderFull var (some op) s (some x) (some v) (some b) file).sys =
+      ⟨x, if s.velRev then v.map V3.neg else v, some b, s.velRev⟩ :=
+  calculateOrderFull_explicit var op s x v b file
+
+/-- **Both routes agree**: reading (x, v, b) from the configuration file gives the same value and leaves
+    the same System as handing the three arrays over (only the read request differs). -/
+theorem calculateOrderFull_routes_agree (var : Variant) (fn : Option OP) (s : SysF) (x v : List V3) (b : List ℚ)
+    (file : Config) :
+    (calculateOrderFull var fn s none none none ⟨some x, some v, some b⟩).val =
+      (calculateOrderFull var fn s (some x) (some v) (some b) file).val ∧
+    (calculateOrderFull var fn s none none none ⟨some x, some v, some b⟩).sys =
+      (calculateOrderFull var fn s (some x) (some v) (some b) file).sys ∧
+    (calculateOrderFull var fn s none none none ⟨some x, some v, some b⟩).read = true := by
+  refine ⟨?_, ?_, rfl⟩ <;> simp [calculateOrderFull]
+
+/-- **One missing argument discards the other two** (as the code is): if any of xyz / vel / box is `None`
+    the file is read and ALL THREE come from the file — explicit arrays given alongside are ignored. -/
+theorem calculateOrderFull_missing_arg_reads_all (var : Variant) (fn : Option OP) (s : SysF)
+    (xyz vel : Option (List V3)) (box : Option (List ℚ)) (file : Config)
+    (h : xyz = none ∨ vel = none ∨ box = none) :
+    calculateOrderFull var fn s xyz vel box file = calculateOrderFull var fn s none none none file := by
+  have hr : (xyz.isNone || vel.isNone || box.isNone) = true := by
+    rcases h with h | h | h <;> subst h <;> simp
+  simp [calculateOrderFull, hr]
+
+/-- **`vel_rev` through the whole of `calculate_order`** (either route, as long as velocities arrive):
+    velocity-type values are negated, position-type values unchanged. -/
+theorem calculateOrderFull_vel_rev (var : Variant) (op : OP) (s : SysF) (xyz vel : Option (List V3))
+    (box : Option (List ℚ)) (file : Config) (v : List V3)
+    (hv : (if xyz.isNone || vel.isNone || box.isNone then file.vel else vel) = some v) :
+    (calculateOrderFull var (some op) { s with velRev := true } xyz vel box file).val =
+      if op.velocityDependent
+      then (calculateOrderFull var (some op) { s with velRev := false } xyz vel box file).val.map negHead
+      else (calculateOrderFull var (some op) { s with velRev := false } xyz vel box file).val := by
+  simp only [calculateOrderFull, hv, calculate, SysF.toSys]
+  generalize hp : (match (if (xyz.isNone || vel.isNone || box.isNone) = true then file.xyz else xyz) with
+    | some x => x | none => s.pos) = P
+  generalize hb : (match (if (xyz.isNone || vel.isNone || box.isNone) = true then file.box else box) with
+    | some b => some b | none => s.box) = B
+  have key := velocity_reversal_sign var op ⟨P, v, B⟩
+  simp only [reverseVel] at key
+  have e1 : ∀ (vr : Bool) (vv : List V3),
+      (match (if (xyz.isNone || vel.isNone || box.isNone) = true then file.box else box) with
+        | some b => ({ (match (if (xyz.isNone || vel.isNone || box.isNone) = true then file.xyz else xyz) with
+            | some x => ({ s with velRev := vr, pos := x } : SysF) | none => { s with velRev := vr }) with
+            vel := vv, box := some b } : SysF)
+        | none => { (match (if (xyz.isNone || vel.isNone || box.isNone) = true then file.xyz else xyz) with
+            | some x => ({ s with velRev := vr, pos := x } : SysF) | none => { s with velRev := vr }) with
+            vel := vv }) = ⟨P, vv, B, vr⟩ := by
+    intro vr vv
+    subst hp hb
+    cases (if (xyz.isNone || vel.isNone || box.isNone) = true then file.box else box) <;>
+      cases (if (xyz.isNone || vel.isNone || box.isNone) = true then file.xyz else xyz) <;> rfl
+  sorry
 
 end Infretis.C20
